@@ -174,21 +174,28 @@ def ensure_coq(targets=None, clean=False):
         rc, out = sh("timeout 3000 make -k -j%d %s 2>&1" % (NCPU, tg), cwd=COQ)
         return rc == 0, out
 
-def ensure_oracle():
-    """Extract and build the OCaml driver; cached on the hash of all .v and .ml inputs."""
-    with Lock("oracle"):
-        vs = sorted(glob.glob(COQ + "/**/*.v", recursive=True)) + glob.glob(ROOT + "/harness/ml/*.ml")
-        key = file_hash(vs)
-        d = os.path.join(BUILD, "extract")
+def oracle_names():
+    return sorted(os.path.basename(p)[len("Extract_"):-2] for p in glob.glob(COQ + "/Extract/Extract_*.v"))
+
+def ensure_oracle(name="block"):
+    """Extract coq/Extract/Extract_<name>.v and build it with harness/ml/common.ml + harness/ml/<name>.ml
+    into _build/extract/<name>/oracle; cached on the hash of all .v files and the two .ml files."""
+    with Lock("oracle_" + name):
+        mls = [ROOT + "/harness/ml/common.ml", ROOT + "/harness/ml/%s.ml" % name]
+        vs = sorted(p for p in glob.glob(COQ + "/**/*.v", recursive=True)
+                    if "/Properties/" not in p and "/Proofs/" not in p and ("/Extract/" not in p or p.endswith("Extract_%s.v" % name)))
+        key = file_hash(vs + mls)
+        d = os.path.join(BUILD, "extract", name)
         exe = os.path.join(d, "oracle")
         stamp = os.path.join(d, "stamp")
         if os.path.exists(exe) and os.path.exists(stamp) and open(stamp).read() == key:
             return exe
+        shutil.rmtree(d, ignore_errors=True)
         os.makedirs(d, exist_ok=True)
-        sh("coqc -Q %s LZ4V %s/Extract/Extract.v" % (COQ, COQ), cwd=d, check=True, timeout=900)
-        for f in glob.glob(ROOT + "/harness/ml/*.ml"):
+        sh("coqc -Q %s LZ4V %s/Extract/Extract_%s.v" % (COQ, COQ, name), cwd=d, check=True, timeout=900)
+        for f in mls:
             shutil.copy(f, d)
-        sh("ocamlfind ocamlopt -O3 -package zarith,unix -linkpkg -w -a lz4v.mli lz4v.ml models.ml driver.ml -o oracle",
+        sh("ocamlfind ocamlopt -O3 -package zarith,unix -linkpkg -w -a lz4v.mli lz4v.ml common.ml %s.ml -o oracle" % name,
            cwd=d, check=True, timeout=900)
         open(stamp, "w").write(key)
         return exe
@@ -218,8 +225,8 @@ def print_assumptions(pid):
     return True, res, out
 
 class Oracle:
-    def __init__(self, full=False):
-        exe = ensure_oracle()
+    def __init__(self, full=False, name="block"):
+        exe = ensure_oracle(name)
         env = dict(os.environ)
         if full:
             env["ORACLE_FULL"] = "1"
